@@ -31,29 +31,29 @@ Definition show_case (c : dcase) : string :=
 (* ---- witnesses used by props/C07.v (generated from the corpus specs of harness/props/C07.py together with the text
    pypika prints for them; the same specs are run on every check) ---- *)
 Definition w_fn_alias : query := (QSel CSnowflake [] false [(IFunc "COALESCE" [(ISub (QSel CQuery [] false [(IT (TField "b" None (Some "bb")))] [(SrcT {| tname := "u"; tschema := []; talias := None |})] [] None None [] [] None None false None)); (IT (TValI (1)%Z None))] None)] [(SrcT {| tname := "t"; tschema := []; talias := None |})] [] None None [] [] None None false None).
-Definition w_fn_alias_text : string := "SELECT COALESCE((SELECT b bb FROM u),1) FROM t".
+Definition w_fn_alias_text : string := "SELECT COALESCE((SELECT b ""bb"" FROM u),1) FROM t".
 Definition w_fn_as : query := (QSel CQuery [] false [(IFunc "COALESCE" [(ISub (QSel CClickHouse [] false [(IT (TField "b" None (Some "bb")))] [(SrcT {| tname := "u"; tschema := []; talias := None |})] [] None None [] [] None None false None)); (IT (TValI (1)%Z None))] None)] [(SrcT {| tname := "t"; tschema := []; talias := None |})] [] None None [] [] None None false None).
-Definition w_fn_as_text : string := "SELECT COALESCE((SELECT ""b"" AS ""bb"" FROM ""u""),1) FROM ""t""".
+Definition w_fn_as_text : string := "SELECT COALESCE((SELECT ""b"" ""bb"" FROM ""u""),1) FROM ""t""".
 Definition w_qalias : query := (QSel CMySQL [] false [(IT (TStar None))] [(SrcQ (QSel CPostgreSQL [] false [(IT (TField "b" None None))] [(SrcT {| tname := "u"; tschema := []; talias := None |})] [] None None [] [] None None false (Some "s")))] [] None None [] [] None None false None).
-Definition w_qalias_text : string := "SELECT * FROM (SELECT `b` FROM `u`) ""s""".
+Definition w_qalias_text : string := "SELECT * FROM (SELECT `b` FROM `u`) `s`".
 Definition w_setop_mixed : query := (QSet (QSel CMySQL [] false [(IT (TField "a" None (Some "x")))] [(SrcT {| tname := "t"; tschema := []; talias := None |})] [] None None [] [] None None false None) [(SUnion, (QSel CPostgreSQL [] false [(IT (TField "b" None (Some "y")))] [(SrcT {| tname := "u"; tschema := []; talias := None |})] [] None None [] [] None None false None))] [] None None None).
-Definition w_setop_mixed_text : string := "(SELECT `a` `x` FROM `t`) UNION (SELECT `b` ""y"" FROM `u`)".
+Definition w_setop_mixed_text : string := "(SELECT `a` `x` FROM `t`) UNION (SELECT `b` `y` FROM `u`)".
 Definition w_cte : query := (QSel CMySQL [("cte", (QSel CMySQL [] false [(IT (TField "b" None None))] [(SrcT {| tname := "u"; tschema := []; talias := None |})] [] None None [] [] None None false None))] false [(IT (TStar None))] [(SrcA "cte")] [] None None [] [] None None false None).
 Definition w_cte_text : string := "WITH cte AS (SELECT `b` FROM `u`) SELECT * FROM cte".
 Definition w_crit_alias : query := (QSel CQuery [] false [(IT (TBasic CEq (TField "a" None None) (TField "b" None None) (Some "crit")))] [(SrcT {| tname := "t"; tschema := []; talias := None |})] [] None None [] [] None None false None).
-Definition w_crit_alias_text : string := "SELECT ""a""=""b"" crit FROM ""t""".
+Definition w_crit_alias_text : string := "SELECT ""a""=""b"" ""crit"" FROM ""t""".
 Definition w_setop_order : query := (QSet (QSel CSnowflake [] false [(IT (TField "a" None (Some "x")))] [(SrcT {| tname := "t"; tschema := []; talias := None |})] [] None None [] [] None None false None) [(SUnion, (QSel CSnowflake [] false [(IT (TField "b" None (Some "x")))] [(SrcT {| tname := "u"; tschema := []; talias := None |})] [] None None [] [] None None false None))] [((TField "a" None (Some "x")), None)] None None None).
-Definition w_setop_order_text : string := "(SELECT a ""x"" FROM t) UNION (SELECT b ""x"" FROM u) ORDER BY x".
+Definition w_setop_order_text : string := "(SELECT a ""x"" FROM t) UNION (SELECT b ""x"" FROM u) ORDER BY ""x""".
 Definition w_fn_gba : query := (QSel COracle [] false [(IFunc "COALESCE" [(ISub (QSel CQuery [] false [(IT (TField "b" None (Some "bb")))] [(SrcT {| tname := "u"; tschema := []; talias := None |})] [] None None [(IT (TField "b" None (Some "bb")))] [] None None false None)); (IT (TValI (1)%Z None))] None)] [(SrcT {| tname := "t"; tschema := []; talias := None |})] [] None None [] [] None None false None).
-Definition w_fn_gba_text : string := "SELECT COALESCE((SELECT b bb FROM u GROUP BY bb),1) FROM t".
+Definition w_fn_gba_text : string := "SELECT COALESCE((SELECT b bb FROM u GROUP BY b),1) FROM t".
 Definition w_fn_literal : query := (QSel CQuery [] false [(IT (TFunc "COALESCE" (TCons (TField "a" None None) (TCons (TValS "x" None) TNil)) None None)); (IT (TValS "y" None))] [(SrcT {| tname := "t"; tschema := []; talias := None |})] [] None None [] [] None None false None).
-Definition w_fn_literal_text : string := "SELECT COALESCE(`a`,'x'),""y"" FROM `t`".
+Definition w_fn_literal_text : string := "SELECT COALESCE(`a`,""x""),""y"" FROM `t`".
 Definition w_fn_term_alias : query := (QSel CSnowflake [] false [(IT (TFunc "COALESCE" (TCons (TValS "x" (Some "y")) (TCons (TValI (1)%Z None) TNil)) None None)); (IT (TValS "x" (Some "y")))] [(SrcT {| tname := "t"; tschema := []; talias := None |})] [] None None [] [] None None false None).
-Definition w_fn_term_alias_text : string := "SELECT COALESCE('x' y,1),'x' ""y"" FROM t".
+Definition w_fn_term_alias_text : string := "SELECT COALESCE('x' ""y"",1),'x' ""y"" FROM t".
 Definition w_qualifier : query := (QSel CSnowflake [] false [(IT (TField "a" (Some {| tname := "#0"; tschema := []; talias := None |}) None))] [(SrcT {| tname := "t"; tschema := []; talias := (Some "ta") |})] [] None None [] [] None None false None).
 Definition w_qualifier_text : string := "SELECT ta.a FROM t ""ta""".
 Definition w_setop_alias : query := (QSel CSnowflake [] false [(IT (TField "a" (Some {| tname := "#0"; tschema := []; talias := None |}) None))] [(SrcQ (QSet (QSel CSnowflake [] false [(IT (TField "a" None None))] [(SrcT {| tname := "t"; tschema := []; talias := None |})] [] None None [] [] None None false None) [(SUnion, (QSel CSnowflake [] false [(IT (TField "a" None None))] [(SrcT {| tname := "u"; tschema := []; talias := None |})] [] None None [] [] None None false None))] [] None None (Some "su")))] [] None None [] [] None None false None).
-Definition w_setop_alias_text : string := "SELECT su.a FROM ((SELECT a FROM t) UNION (SELECT a FROM u)) ""su""".
+Definition w_setop_alias_text : string := "SELECT su.a FROM ((SELECT a FROM t) UNION (SELECT a FROM u)) su".
 Definition p_nested : query := (QSel CMySQL [] false [(IT (TField "a" (Some {| tname := "#0"; tschema := []; talias := None |}) (Some "al"))); (IT (TCase (WCons (TBasic CGt (TField "a" (Some {| tname := "#0"; tschema := []; talias := None |}) None) (TValI (1)%Z None) None) (TValS "big" None) WNil) (OSome (TValS "small" None)) (Some "sz")))] [(SrcT {| tname := "t"; tschema := []; talias := None |}); (SrcQ (QSel CVertica [] false [(IT (TField "b" (Some {| tname := "#0"; tschema := []; talias := None |}) (Some "bb"))); (IT (TFunc "F" (TCons (TField "c" (Some {| tname := "#1"; tschema := []; talias := None |}) None) TNil) None None))] [(SrcT {| tname := "u"; tschema := []; talias := None |}); (SrcQ (QSel COracle [] false [(IT (TField "c" None (Some "cc")))] [(SrcT {| tname := "v"; tschema := []; talias := None |})] [] (Some (IT (TBasic CEq (TField "c" None None) (TValS "it's" None) None))) None [] [] None None false None))] [] None None [] [] None None false None))] [(JLeft, (SrcQ (QSel CSnowflake [] false [(IT (TField "d" None None))] [(SrcT {| tname := "w"; tschema := []; talias := None |})] [] None None [] [] None None false None)), (JOn (IT (TBasic CEq (TField "a" (Some {| tname := "#0"; tschema := []; talias := None |}) None) (TField "d" (Some {| tname := "#2"; tschema := []; talias := None |}) None) None))))] (Some (IIn (TField "a" (Some {| tname := "#0"; tschema := []; talias := None |}) None) (QSel CClickHouse [] false [(IT (TField "e" None None))] [(SrcT {| tname := "z"; tschema := []; talias := None |})] [] None None [] [] None None false None) false)) None [(IT (TField "a" (Some {| tname := "#0"; tschema := []; talias := None |}) (Some "al")))] [] (Some (3)%Z) None false None).
 Definition p_nested_text : string := "SELECT `t`.`a` `al`,CASE WHEN `t`.`a`>1 THEN 'big' ELSE 'small' END `sz` FROM `t`,(SELECT `u`.`b` `bb`,F(`sq0`.`c`) FROM `u`,(SELECT `c` `cc` FROM `v` WHERE `c`='it''s') `sq0`) `sq1` LEFT JOIN (SELECT `d` FROM `w`) `sq2` ON `t`.`a`=`sq2`.`d` WHERE `t`.`a` IN (SELECT `e` FROM `z`) GROUP BY `al` LIMIT 3".
 Definition w_fn_literal_kw : kwargs := {| kw_q := Some (Some "`"); kw_rest := Some (Some """", None, false) |}.
@@ -61,4 +61,4 @@ Definition rid : cls -> cls := fun c => c.
 Definition toks_of (x : query) : list dtok := match str_toks rid FUEL x with Ok ts => ts | Err _ => [] end.
 Definition strict_ok (x : query) : bool :=
   let c := top_cls_r rid x in
-  forallb (strict_tokb {| v_q := cls_q c; v_sq := cls_sq c; v_aq := cls_aq c; v_as := cls_askw c; v_adm := fun _ => true |} (qalias_quote c)) (toks_of x).
+  forallb (strict_tokb {| v_q := cls_q c; v_sq := cls_sq c; v_aq := cls_aq c; v_as := cls_askw c; v_qa := qalias_quote c; v_abs := false |} (qalias_quote c)) (toks_of x).
